@@ -47,6 +47,8 @@ def systematic_configs(info):
     for o in out:
         for arg in ("", ":@D@/a.log", ":@D@/s.sock", ":/nonexistent/dir/x"):
             cfgs.append(("output:%s%s" % (o, arg), "[snoopy]\noutput = %s%s\nerror_logging = yes\n" % (o, arg)))
+    for (nm, fmt) in (("unterminated-tag", "%{cmdline} %{cmdline"), ("unknown-source", "%{cmdline} %{nosuch} tail"), ("unknown-source-arg", "%{nosuch:arg}%{cmdline}"), ("empty-tag", "%{}%{:}")):
+        cfgs.append(("format:" + nm, base + 'message_format = "%s"\nerror_logging = yes\n' % fmt))
     cfgs.append(("ident-template", "[snoopy]\noutput = devlog\nsyslog_ident = \"id-%{username}-%{nosuch}\"\nsyslog_facility = LOCAL1\nsyslog_level = DEBUG\n"))
     cfgs.append(("file-template", "[snoopy]\noutput = file:@D@/%{username}.log\n"))
     cfgs.append(("small-limits", "[snoopy]\noutput = file:@D@/a.log\nlog_message_max_length = 255\ndatasource_message_max_length = 255\nerror_logging = yes\nmessage_format = \"%{cmdline} %{env_all}\"\n"))
